@@ -11,6 +11,12 @@ Open Scope Z_scope.
              observed number of failed attempts of each outage; output = for each outage
              the upper bounds (ns) of the waits after its failed attempts 0, 1, ...
              (the no-jitter value: C19_jitter_range; restart per outage: C19_outages_restart)
+     mode 4: ONE value driven through operations in any order (VerifBackoffOps): rs is the flat
+             list kind, arg, r per operation (n = its length): kind 0 = durationForAttempt(arg),
+             1 = duration(), 2 = reset(); r = 0 without jitter, the observed delay of that call
+             with jitter (echoed iff within [0, the no-jitter delay of the same call]); output =
+             the delay of every call of kind 0 / 1.  (C19_query_history_independent,
+             C19_ops_are_queries.)  A negative arg of a query is outside the domain.
    rs (modes 0-2): one value per observed call (1 for mode 0, n otherwise).
    Without jitter rs is all zeros and the delays are compared exactly.
    With jitter the draw cannot be predicted (the global math/rand source is not under the
@@ -59,13 +65,41 @@ Definition dec_input (x : sx) : option c19_input :=
   | SL [SZ mode; nj; SZ ba; SZ f; SZ c; SZ k; SZ n; rs] =>
       do j <- as_b nj;
       do l <- as_list as_z rs;
-      if (0 <=? k) && ((mode =? 0) || (0 <=? n)) && (0 <=? mode) && (mode <=? 3)
+      if (0 <=? k) && ((mode =? 0) || (0 <=? n)) && (0 <=? mode) && (mode <=? 4)
          && (Z.of_nat (length l) =? (if mode =? 0 then 1 else n))
       then Some (mode, j, ba, f, c, k, n, l) else None
   | _ => None
   end.
 
 Definition out_of_domain : sx := SL [SZ 9].
+
+(* mode 4: decode the flat list; None on a malformed list or a negative query argument.
+   The second component: the same operations with oracle 0 (run on the no-jitter twin to
+   get the bounds); the third: the oracle / observed value of every call that returns a delay. *)
+Fixpoint dec_ops (l : list Z) : option (list op * list op * list Z) :=
+  match l with
+  | [] => Some ([], [], [])
+  | kind :: arg :: r :: t =>
+      match dec_ops t with
+      | None => None
+      | Some (ops, ops0, rs) =>
+          if kind =? 0 then
+            if arg <? 0 then None else Some (OQuery arg r :: ops, OQuery arg 0 :: ops0, r :: rs)
+          else if kind =? 1 then Some (OWait r :: ops, OWait 0 :: ops0, r :: rs)
+          else if kind =? 2 then Some (OReset :: ops, OReset :: ops0, rs)
+          else None
+      end
+  | _ => None
+  end.
+
+Definition ops_sx (nj : bool) (ba f c : Z) (l : list Z) : sx :=
+  match dec_ops l with
+  | None => out_of_domain
+  | Some (ops, ops0, rs) =>
+      let os := snd (run_ops (fresh nj ba f c) ops) in
+      if nj then SL (map outcome_sx os)
+      else SL (echo_list rs os (snd (run_ops (fresh true ba f c) ops0)))
+  end.
 
 Definition run_typed (inp : c19_input) : sx :=
   let '(mode, nj, ba, f, c, k, n, rs) := inp in
@@ -78,6 +112,7 @@ Definition run_typed (inp : c19_input) : sx :=
     let o := snd (dur_for_attempt b n r) in
     if nj then outcome_sx o else echo_sx r o (snd (dur_for_attempt (fresh true ba f c) n 0))
   else if mode =? 1 then seq_sx b rs
+  else if mode =? 4 then ops_sx nj ba f c rs
   else if mode =? 3 then
     SL (map (fun os => SL (map outcome_sx os)) (outages (fresh true ba f c) rs))
   else seq_sx (reset (fst (dur_seq b (zeros k)))) rs.
